@@ -25,15 +25,21 @@ theorem C03_roundtrip (order : Graph → List Nat) (hperm : ∀ r : Graph, r.WF 
   obtain ⟨H, τ, hp, iso, hl, Hw, Hs, _⟩ := pipeline_roundtrip order hperm g hw hs hmol hsize s h
   exact ⟨H, τ, hp, iso, iso.numberOfNodes, iso.numberOfEdges hw hs Hw Hs⟩
 
-/-- the emitted string is accepted by the parser (string level: it lexes and is a sentence of the grammar) -/
+/-- the text the three writers assemble for a graph `m` (`serializedText m`: formula, tuples, attribute blocks) is
+accepted by the parser — it lexes and is a sentence of the grammar with tree `astOf m` — for ANY graph `m` with
+table symbols and positive labels.  The pipeline applies it to the canonical graph after the final relabelling and
+the sort by atomic number; the statement about the pipeline's own output is `C05_emitted_layout` /
+`C05_emitted_is_sentence`. -/
 theorem C03_emitted_string_parses (m : Graph)
     (hsyms : ∀ s ∈ m.nodes.filterMap (·.attrs.sym), s ∈ elementSyms)
     (hpos : ∀ n ∈ m.nodes, (∀ v, n.attrs.mass = some v → 0 < v) ∧ (∀ v, n.attrs.rad = some v → 0 < v)) :
     ∃ toks, lex (serializedText m) = some toks ∧ parseTucan toks = some (astOf m) ∧ Sentence toks (astOf m) :=
   serialize_parses m hsyms hpos
 
-/-- **… for every conformant molfile**: the string of the graph either reader returns for a file stating a
-molecule within the CTfile specification parses back to that graph under a renaming of its atoms. -/
+/-- **… for every graph of a conformant molecule**: the string of a graph `g` of a molecule a molfile can state
+within the CTfile specification (`IsGraphOf g m c`: what either reader returns for a file stating `m`,
+`C06_v3000_file_any_indices` / `C06_readsAs_graph_of`) parses back to that graph under a renaming of its atoms.
+(With the file's text inside the statement: `C15_v3000_text_to_string`.) -/
 theorem C03_molfile_roundtrip (order : Graph → List Nat) (hperm : ∀ r : Graph, r.WF → (order r).Perm r.labels)
     (g : Graph) (m : Mol) (c : List (Str × Str × Str)) (hc : c.length = m.atoms.length)
     (hm : m.Conformant) (hg : IsGraphOf g m c)
